@@ -7,7 +7,7 @@ Q_ASYNC = 195840   # 2^8 * 3^2 * 5 * 17: every ramp increment of the model const
 
 PREDICATES = {
     "C03": ["C03_CallOk"],
-    "C04": ["C04_Bounds", "C04_Consumed", "C04_Written", "C04_Allocate"],
+    "C04": ["C04_Bounds", "C04_Consumed", "C04_Written", "C04_Allocate", "C04_LifeBounds"],
     "C06": ["C06_Increasing", "C06_StepInRange", "C06_RampMonotone", "C06_Supplied"],
     "C07": ["C07_NoDrift", "C07_FftExact", "C07_FftBlock"],
     "C09": ["C09_NoHeap"],
@@ -79,6 +79,33 @@ def model_configs(prop, tier):
     return out
 
 
+def emit_behaviours(module, tag, params, tier, seed, wd, prop, rng, quick_n=400, thorough_n=6000):
+    """Replay scripts drawn from an as-is model. Quick: TLC random simulation (seeded, depth 7), a
+    few seconds; thorough: additionally every behaviour of the exhaustive exploration to depth 4
+    (one script per explored transition) and deeper simulations."""
+    pe = dict(params)
+    pe["depth"] = 0 if module == "FftBlocks" else 60
+    out = []
+    if tier == "quick":
+        r = model.check_model(module, cfg_text(module, pe, True), wd, "%s-%s-sim" % (prop, tag), workers=1,
+                              timeout=900, simulate=(quick_n, 7, seed % 100000 + 1))
+        out = model.maximal(r["replays"], limit=quick_n, rng=rng)
+    else:
+        r = model.check_model(module, cfg_text(module, pe, True), wd, "%s-%s-sim" % (prop, tag), workers=1,
+                              timeout=1800, simulate=(thorough_n // 2, 12, seed % 100000 + 1))
+        out = model.maximal(r["replays"], limit=thorough_n // 2, rng=rng)
+        pe2 = dict(params)
+        demit = None
+        if module == "FftBlocks":
+            pe2["depth"] = 6
+        else:
+            demit = 4
+        r2 = model.check_model(module, cfg_text(module, pe2, True, demit), wd, "%s-%s-emit" % (prop, tag),
+                               workers=1, timeout=3000)
+        out += model.maximal(r2["replays"], limit=thorough_n // 2, rng=rng)
+    return out
+
+
 def cfg_text(module, params, emit, depth_emit=None):
     p = dict(params)
     if emit and depth_emit is not None:
@@ -95,7 +122,7 @@ def cfg_text(module, params, emit, depth_emit=None):
 # generated scripts per property
 
 def gen_scripts(prop, tier, rng):
-    n = {"quick": 8, "thorough": 120}[tier]
+    n = {"quick": 100, "thorough": 400}[tier]
     S = []
     if prop in ("C03", "C04"):
         for _ in range(n):
@@ -110,8 +137,10 @@ def gen_scripts(prop, tier, rng):
         # real kernels (dispatch and each explicit kernel) on noise: the kernels' own asserts
         for _ in range(n):
             for kind in ("SincFixedIn", "SincFixedOut"):
-                S.append(gen.valid_history(rng, kind, 15, signal="noise",
+                S.append(gen.valid_history(rng, kind, 15, signal="noise", varymask=rng.random() < 0.5,
                                            probe=rng.choice(["dispatch", "rec", "scalar", "avx", "sse"])))
+            for kind in gen.FFT + ["FastFixedIn", "FastFixedOut"]:
+                S.append(gen.valid_history(rng, kind, 15, signal="noise", varymask=True, ch=rng.choice([2, 3, 4])))
     elif prop == "C06":
         for _ in range(2 * n):
             for kind in gen.ASYNC:
@@ -281,6 +310,8 @@ def check(prop, tier, seed, replay=None):
         print(out[-3000:] if not ok else "replay: all predicates hold on " + replay)
         return 0 if ok else 1
 
+    phase = {}
+    tph = time.time()
     # ---- 1. exhaustive exploration of the as-is models
     model_scripts = []   # (name, ops, exp, q)
     for module, tag, params, conv, q in model_configs(prop, tier):
@@ -294,14 +325,8 @@ def check(prop, tier, seed, replay=None):
                                   "invariants": params["invariants"]})
         if not res["ok"]:
             raise run.ToolError("model %s/%s violates %s on its own: %s" % (module, tag, params["invariants"], res["error"]))
-        # behaviours for replay (smaller depth: one script per distinct state)
-        demit = None if module == "FftBlocks" else (3 if tier == "quick" else 4)
-        pe = dict(params)
-        if module == "FftBlocks":
-            pe["depth"] = 4 if tier == "quick" else 6
-        res2 = model.check_model(module, cfg_text(module, pe, True, demit), wd, "%s-%s-emit" % (prop, tag),
-                                 workers=1, timeout=3000)
-        reps = model.maximal(res2["replays"], limit={"quick": 400, "thorough": 6000}[tier], rng=rng)
+        # behaviours for replay
+        reps = emit_behaviours(module, tag, params, tier, seed, wd, prop, rng)
         for k, h in enumerate(reps):
             ops, exp = conv(h)
             model_scripts.append(("m-%s-%05d" % (tag, k), adapt_model_script(prop, ops, rng), exp, q))
@@ -325,6 +350,7 @@ def check(prop, tier, seed, replay=None):
                                       "property": "Refines (model implements Abstract.tla)",
                                       "invariants": p2["invariants"]})
 
+    phase["models_s"] = round(time.time() - tph, 1); tph = time.time()
     # ---- 2. seeded scripts at realistic sizes, witnesses of repaired / known defects
     g = gen_scripts(prop, tier, rng)
     gen_named = [("g-%05d" % k, ops) for k, ops in enumerate(g)]
@@ -340,6 +366,7 @@ def check(prop, tier, seed, replay=None):
     pairs = run.run_scripts(allscripts, wd)
     bypath = {sp: tp for sp, tp in pairs}
 
+    phase["driver_s"] = round(time.time() - tph, 1); tph = time.time()
     # ---- 3. as-is conformance of the model behaviours (MODEL-DRIFT, never a violation)
     ndrift = 0
     for (name, ops, exp, q), (sp, tp) in zip(model_scripts, pairs[:len(model_scripts)]):
@@ -359,8 +386,11 @@ def check(prop, tier, seed, replay=None):
         pairs += more
         cov["scripts"]["escalated_after_drift"] = len(more)
 
+    phase["compare_s"] = round(time.time() - tph, 1); tph = time.time()
     # ---- 4. trace validation of every real execution against Contract
     res = run.validate_traces(pairs, preds, wd, tag=prop)
+    phase["trace_validation_s"] = round(time.time() - tph, 1); tph = time.time()
+    cov["phase_s"] = phase
     cov["states"] += res["states"]
     cov["transitions"] += res["transitions"]
     cov["traces_validated_against_impl"] = res["traces"]
